@@ -75,6 +75,15 @@ var (
 		}
 		return qt.Float(txt)
 	}}
+	// integers at the edges of the float32 / int32 / float64 / int64 ranges, where a detour through
+	// another number type silently changes the value
+	vgIntEdge = valGen{"intEdge", true, func(r *rand.Rand, d int) qt.Value {
+		return qt.Int(pick(r, d, []int{16777217, 2147483647, 4294967297, 9007199254740991, 9007199254740993, 9007199254740995, 1234567890123456789, 9223372036854775806, 9223372036854775807, -9223372036854775808, -9007199254740993, 36028797018963969, 99999999999999999, -2147483649}))
+	}}
+	// decimals at the same edges: whole-valued beyond int64, just above 2^24 / 2^53, many digits
+	vgFloatEdge = valGen{"floatEdge", true, func(r *rand.Rand, d int) qt.Value {
+		return qt.Float(pick(r, d, []string{"9.5e18", "9500000000000000000.0", "9.3e18", "-9.5e18", "9223372036854775808", "9223372036854775808.0", "18446744073709551616", "1e19", "9007199254740993.0", "16777217.5", "4294967296.5", "100000.00001", "3.14159265", "-9223372036854775809"}))
+	}}
 	vgFloatBig = valGen{"floatBig", true, func(r *rand.Rand, d int) qt.Value {
 		return qt.Float(pick(r, d, []string{"1e30", "2.5e21", "1e21", "123456789012345678901234.5", "1.5e300"}))
 	}}
@@ -166,14 +175,14 @@ func numField(v qt.Value) string {
 // leafClasses enumerates the class space exhaustively; draws is the number of value draws per class.
 func leafClasses(r *rand.Rand, draws int) []leafCase {
 	out := []leafCase{}
-	eqKinds := []valGen{vgInt, vgNegInt, vgFloat2, vgFloatN, vgFloatBig, vgFloatWhole, vgWord, vgPhrase, vgComma, vgQuote, vgMeta, vgEmpty, vgEscaped}
+	eqKinds := []valGen{vgInt, vgNegInt, vgIntEdge, vgFloatEdge, vgFloat2, vgFloatN, vgFloatBig, vgFloatWhole, vgWord, vgPhrase, vgComma, vgQuote, vgMeta, vgEmpty, vgEscaped}
 	for _, g := range eqKinds {
 		for d := 0; d < draws; d++ {
 			v := g.gen(r, d)
 			out = append(out, leafCase{"eq:" + g.name, qt.F(numField(v), v), ""})
 		}
 	}
-	cmpKinds := []valGen{vgInt, vgNegInt, vgFloat2, vgFloatN, vgFloatBig, vgWord, vgPhrase, vgComma, vgQuote}
+	cmpKinds := []valGen{vgInt, vgNegInt, vgIntEdge, vgFloatEdge, vgFloat2, vgFloatN, vgFloatBig, vgWord, vgPhrase, vgComma, vgQuote}
 	for _, op := range []string{">", ">=", "<", "<="} {
 		for _, g := range cmpKinds {
 			for d := 0; d < draws; d++ {
@@ -189,6 +198,7 @@ func leafClasses(r *rand.Rand, draws int) []leafCase {
 	pairs := []pair{
 		{"int-int", vgInt, vgInt}, {"negint-int", vgNegInt, vgInt}, {"float2-float2", vgFloat2, vgFloat2}, {"floatN-floatN", vgFloatN, vgFloatN},
 		{"int-floatN", vgInt, vgFloatN}, {"float2-int", vgFloat2, vgInt}, {"floatWhole-floatBig", vgFloatWhole, vgFloatBig},
+		{"intEdge-intEdge", vgIntEdge, vgIntEdge}, {"int-intEdge", vgInt, vgIntEdge}, {"floatEdge-floatEdge", vgFloatEdge, vgFloatEdge}, {"intEdge-floatEdge", vgIntEdge, vgFloatEdge},
 		{"word-word", vgWord, vgWord}, {"phrase-phrase", vgPhrase, vgPhrase}, {"comma-comma", vgComma, vgWord}, {"quote-quote", vgQuote, vgQuote}, {"empty-word", vgEmpty, vgWord},
 	}
 	for _, incl := range []bool{true, false} {
@@ -230,7 +240,7 @@ func leafClasses(r *rand.Rand, draws int) []leafCase {
 		out = append(out, leafCase{"range:" + br + ":both:num", qt.Range("n", qt.Open(), qt.Open(), incl), ""})
 		out = append(out, leafCase{"range:" + br + ":both:str", qt.Range("s", qt.Open(), qt.Open(), incl), ""})
 	}
-	listKinds := [][]valGen{{vgInt, vgInt}, {vgInt, vgFloatN, vgNegInt}, {vgFloat2, vgFloatWhole}, {vgWord, vgWord}, {vgPhrase, vgComma, vgQuote}, {vgWord, vgEmpty}, {vgMeta, vgEscaped, vgWord}}
+	listKinds := [][]valGen{{vgIntEdge, vgFloatEdge, vgInt}, {vgInt, vgInt}, {vgInt, vgFloatN, vgNegInt}, {vgFloat2, vgFloatWhole}, {vgWord, vgWord}, {vgPhrase, vgComma, vgQuote}, {vgWord, vgEmpty}, {vgMeta, vgEscaped, vgWord}}
 	for _, lk := range listKinds {
 		names := []string{}
 		for _, g := range lk {
@@ -251,7 +261,7 @@ func leafClasses(r *rand.Rand, draws int) []leafCase {
 		}
 	}
 	// bare terms under a default field are field-scoped terms too
-	for _, g := range []valGen{vgWord, vgInt, vgNegInt, vgFloat2, vgFloatN, vgPhrase, vgQuote, vgComma, vgMeta, vgEmpty, vgEscaped} {
+	for _, g := range []valGen{vgWord, vgInt, vgNegInt, vgIntEdge, vgFloatEdge, vgFloat2, vgFloatN, vgPhrase, vgQuote, vgComma, vgMeta, vgEmpty, vgEscaped} {
 		for d := 0; d < draws; d++ {
 			v := g.gen(r, d)
 			out = append(out, leafCase{"bare-default-field:" + g.name, qt.T(v), numField(v)})
